@@ -273,7 +273,7 @@ def writer_string_tables(F):
     opn = set()
     cls = set()
     for c in b.calls:
-        if re.search(r"Vec::<.*>::push$", c.fn or ""):
+        if re.search(r"Vec::<.*>::push$|(BTreeSet|HashSet)::<.*>::insert$", c.fn or ""):
             t = b.oname(c.args[0], 2)
             if "parentheses" in t:
                 opn |= R.get(c.bb, frozenset())
